@@ -276,7 +276,8 @@ func xmlAddKeyElements(s Entry, parent *etree.Element) {
 		if existingElem == nil {
 			// and finally we create the patheleme key attributes
 			parent.CreateElement(schemaKeys[i]).SetText(treeElem.PathName())
-			treeElem = treeElem.GetParent()
 		}
+		// move one key level up, no matter if the key had to be added or did already exist
+		treeElem = treeElem.GetParent()
 	}
 }
